@@ -1,6 +1,6 @@
 (** Statements of the C11 theorems spelled out again, so that a theorem cannot be silently
     weakened: this file stops compiling if a statement in Props/C11.v changes. *)
-From BV Require Import Base.Common Model.Index Proofs.Index Props.C11.
+From BV Require Import Base.Common Model.Index Proofs.Index Corr.C11 Proofs.CorrC11 Props.C11.
 From Coq Require Import Permutation.
 
 Check C11_build_total : forall l, exists x, build l = Some x.
@@ -44,6 +44,9 @@ Check C11_tables_aligned : forall l x added, build l = Some x -> assets_wf l -> 
 Check C11_hypothesis_checks : forall l,
   (faithful_b l = true -> faithful l) /\ (assets_wf_b l = true -> assets_wf l) /\
   (inames_wf_b l = true -> inames_wf l) /\ (inames_wf l -> inames_ex_wf l).
+Check C11_oracle_sound : forall c, wf_case c = true -> corr_b c = true -> prop_b c = true.
+Check eq_refl : wf_case (CPerm [] 1 [([], Some (mkIndexed [] [] []))])%N = true.
+Check eq_refl : wf_case (CPerm [] 0 [([], Some (mkIndexed [] [] []))])%N = false.
 (* the definitions the statements rest on, pinned by evaluation *)
 Check eq_refl : sd_exchanges [3; 1; 3; 2; 1]%N = [1; 2; 3]%N.
 Check eq_refl : sd_assets [(1, (2, 2)); (0, (5, 5)); (1, (2, 1)); (0, (5, 5))]%N = [(0, (5, 5)); (1, (2, 1)); (1, (2, 2))]%N.
